@@ -168,7 +168,7 @@ theorem src_tag_stepC11 (h : Tag_get_html_string_available = true) (hn : normali
       cases hv : kk.visible with
       | nil =>
         by_cases hvoid : nm ∈ cfg.void <;>
-          simp [hv, hvoid, pyEq, pyAnd, openTag, closeTag, List.append_assoc]
+          simp [hv, hvoid, pyEq, pyAnd, pyOr, truthy_list, openTag, closeTag, List.append_assoc]
       | cons c rest =>
         have hq := HQ (i + 1) eol ws (!cfg.noesc.contains nm)
         have hi1 : pyAdd (globalsC11 cfg af) (PVal.int ↑i) (PVal.int 1) = .ok (PVal.int ↑(i + 1)) := by
@@ -178,7 +178,7 @@ theorem src_tag_stepC11 (h : Tag_get_html_string_available = true) (hn : normali
         | nil =>
           cases c <;> cases ws <;> by_cases hne : nm ∈ cfg.noesc <;> by_cases hk : kk.hasTobjKids = true <;>
             simp [hne, hk] at hq <;>
-            simp [hv, pyEq, pyAnd, openTag, closeTag, List.append_assoc, inlineChild?, embT, embDepFields, reprField, isInstance, builtinClasses, classBases,
+            simp [hv, pyEq, pyAnd, pyOr, truthy_list, openTag, closeTag, List.append_assoc, inlineChild?, embT, embDepFields, reprField, isInstance, builtinClasses, classBases,
               pyGetItem, inlineText, hne, hntT, hntH, pyStr, escText, hi1, hq, hk, pyClassOf, renderList, embTs_toList, pyAdd_str]
         | cons c2 r2 =>
           have hlen0 : ¬ ((r2.length : Int) + 1 + 1 = 0) := by omega
@@ -186,7 +186,7 @@ theorem src_tag_stepC11 (h : Tag_get_html_string_available = true) (hn : normali
           have hin : inlineChild? (c :: c2 :: r2) = none := by cases c <;> rfl
           cases ws <;> by_cases hne : nm ∈ cfg.noesc <;> by_cases hk : kk.hasTobjKids = true <;>
             simp [hne, hk] at hq <;>
-            simp [hv, pyEq, pyAnd, openTag, closeTag, List.append_assoc, hin, hlen, hlen0,
+            simp [hv, pyEq, pyAnd, pyOr, truthy_list, openTag, closeTag, List.append_assoc, hin, hlen, hlen0,
               hne, hi1, hq, hk, pyClassOf, renderList, embTs_toList, pyAdd_str])
 
 
